@@ -109,6 +109,11 @@ def decorate_symbols(prog, rng, kind="so"):
     if vs and rng.random() < 0.2:
         v = rng.choice(vs)
         v.aliases.append(("%s_alias" % v.name, False))
+    if progen.GEN2:
+        # protected visibility: still exported, so no oracle changes; the attribute must survive every representation
+        for x in fns + vs:
+            if rng.random() < 0.1 and not x.weak:
+                x.visibility = "protected"
     if fns and kind == "so" and rng.random() < 0.2:
         node = "VERS_%s_1" % prog.nonce.upper()
         for f in rng.sample(fns, max(1, len(fns) // 2)):
